@@ -652,9 +652,38 @@ def path_last_local(df, place):
     return p[1][-1] if p and p[1] else None
 
 
+def r8(ctx, facts):
+    r = ctx.rule("R8", "the serial consistency put on the wire is the statement's own setting whenever it was set - also when it was set to `none`; the profile's only when unset", floor=2)
+    from ..util import field_slice
+    OO = "core::option::Option<core::option::Option<scylla_cql_core::frame::types::SerialConsistency>>"
+    n = 0
+    for b in facts.bodies.mentioning('"serial_consistency"'):
+        if b.crate != "scylla" or "::promoted[" in b.path:
+            continue
+        for bb in sorted(b.live_blocks):
+            for st in b.stmts(bb):
+                if not (st[0] == "A" and st[2][0] == "agg" and st[2][1][0] == "adt" and "serial_consistency" in (st[2][1][4] or [])):
+                    continue
+                op = st[2][2][st[2][1][4].index("serial_consistency")]
+                seen, calls, _ = field_slice(b, op)
+                oo = [c for c in calls if c.args and c.args[0][0] in ("c", "m") and OO in b.local_ty(c.args[0][1][0]).replace("&", "")]
+                reads_profile = any("ExecutionProfile" in b.local_ty(l) for l, _ in seen)
+                reads_statement = any("StatementConfig" in b.local_ty(l) for l, _ in seen)
+                if not oo or not reads_profile or not reads_statement:
+                    continue
+                n += 1
+                meths = sorted({(c.decl or c.name or "").split("::")[-1] for c in oo})
+                ok = all(m in ("unwrap_or", "unwrap_or_else", "clone", "as_ref", "copied") for m in meths) and any(m in ("unwrap_or", "unwrap_or_else") for m in meths)
+                r.instance("statement-setting-wins:" + fn_short(b.path), ok,
+                           "the statement's serial consistency (Option<Option<_>>: unset / set to none / set to a level) is combined with the execution profile through %s: "
+                           "only `unwrap_or(profile)` keeps an explicit `none`; flatten / or / and_then replace it by the profile's level and the frame carries a SERIAL flag the caller turned off" % meths, b.stmt_span(st))
+    if n == 0:
+        raise AnchorLost("no place found where a statement's serial consistency is combined with the execution profile's")
+
+
 def check(ctx):
     facts = inline_view(ctx.facts("default"))
-    for fn in (r1_r2, r6, r4, r5, r7):
+    for fn in (r1_r2, r6, r4, r5, r7, r8):
         try:
             fn(ctx, facts)
         except AnchorLost as ex:
